@@ -228,6 +228,16 @@ def c01(tier, seed):
                 steps += [step("app", "await", tag="s%d" % k, ms=20000)]
             add(role, "wt", steps, {"family": "concurrent", "n": nstreams})
 
+    # (i') the receiver grants a tiny flow-control window per stream: the endpoint's own writes (control
+    # stream, request / response, stream preambles, payload) are accepted a byte or two at a time
+    for role in ("client", "server"):
+        for win in ([1, 3] if tier == "quick" else [1, 2, 3, 5, 17]):
+            steps = []
+            for k, kind in enumerate(("uni", "bi", "uni")):
+                steps += [step("app", "open_" + kind, tag="o%d" % k, ms=8000),
+                          step("app", "write", tag="o%d" % k, len=29 + k, salt=20 + k, chunk=7, then_finish=True, ms=8000)]
+            steps.append(sleep(300))
+            add(role, "raw", steps, {"family": "tiny-window", "window": win}, {"peer_stream_window": win})
     # (ii) raw peer writes a WebTransport stream whose preamble is cut at every position
     payload = [0x54, 0x00, 0x41, 0x00, 0x40, 0x54, 9, 8, 7]     # looks like preambles itself
     variants = [("server", 0), ("client", 0), ("server", 64)] + ([("server", 4096)] if tier == "thorough" else [])
@@ -306,7 +316,7 @@ def _hdr_classes(rng):
     names_static = ["origin", "user-agent", "content-type", "accept-language", "cookie", "referer",
                     "accept-encoding", "x-frame-options"]
     names_lit = ["x", "x-a", "sec-webtransport-http3-draft", "abcdefg", "abcdefgh", "q" * 126, "q" * 127,
-                 "q" * 128, "a.b_c~d", "0digit", "x-" + shrink(20)]
+                 "q" * 128, "a.b_c~d", "0digit", "x-" + shrink(20), "1st-party", "-dash", "9"]
     return names_static, names_lit, vals
 
 
@@ -438,6 +448,14 @@ def c03(tier, seed):
         steps.append(step("peer", "dgram", bytes=varint(0, 8) + [1]))   # non-shortest quarter id
         steps.append(step("app", "recv_dgram", ms=800))
         steps.append(step("app", "recv_dgram", ms=150))                 # nothing left: foreign ones are dropped
+        # quarter ids that are no session's (not client-initiated bidirectional when multiplied back, huge,
+        # non-shortest), then proof that the live session is undisturbed
+        for q in (1, 2, 3, 5, 63, 16383, (1 << 60) - 1):
+            steps.append(step("peer", "dgram", bytes=varint(q) + [0xF0, q % 251]))
+        steps.append(step("peer", "dgram", bytes=varint(1, 8) + [0xF1]))
+        steps += [sleep(40), step("peer", "dgram", bytes=varint(0) + [0xAA, 0xBB]), step("app", "recv_dgram", ms=800),
+                  step("peer", "open_uni", tag="probe"), step("peer", "write", tag="probe", bytes=wt_uni_preamble(0) + [0x70]),
+                  step("app", "accept_uni", tag="probe", ms=2500)]
         add(role, "raw", steps, {"family": "peer-to-app"})
     # two wtransport endpoints, both directions interleaved
     for role in ("client", "server"):
@@ -874,6 +892,13 @@ def c16(tier, seed):
         out.append({"scn": "C16-%04d" % n, "role": "server", "peer": "raw", "decision": "accept",
                     "cfg": {"burn_bidi": 64}, "meta": {"prop": "C16", "family": "server-sid256", "decision": "accept"},
                     "steps": list(emit_steps)})
+        n += 1
+    # (b'') session ids whose varint is longer than their quarter id's (64: 2 bytes / 1 byte)
+    for burn, fam in ((16, "server-sid64"), (63, "server-sid252")):
+        out.append({"scn": "C16-%04d" % n, "role": "server", "peer": "raw", "decision": "accept",
+                    "cfg": {"burn_bidi": burn}, "meta": {"prop": "C16", "family": fam, "decision": "accept"},
+                    "steps": list(emit_steps) + [step("app", "send_dgram", len=1, salt=5), step("app", "send_dgram", len=40, salt=6),
+                                                sleep(60)]})
         n += 1
     # (c) error paths that make the endpoint speak (codes must be registered values)
     for s in c12(tier, seed):
